@@ -60,7 +60,9 @@ def run_case(spec):
     os.makedirs(common.WORK, exist_ok=True)
     root = tempfile.mkdtemp(dir=common.WORK, prefix="c13_")
     slash = bool(rng.random() < 0.5)
-    path = os.path.join(root, 'store')
+    # the directory name is the user's: glob / regex / HDF5-path characters included
+    DIRS = ['store', 'store', 'run[1]', 'res_32[dx=0.5]', 'with space', 'it_5', 'a*b', 'q?', 'rl=1', 'store.hdf5']
+    path = os.path.join(root, DIRS[int(spec['seed']) % len(DIRS)])
     param = {'datapath': path + ('/' if slash else '')}
     model = {}
     tagsl = 'slash' if slash else 'noslash'
